@@ -279,7 +279,9 @@ class Facts:
 
     def __init__(self, real=(), hermitian=(), symmetric=(), inverse=(),
                  diagonal=(), unit_modulus=(), zero_diag=(), idempotent=(), exclusive=(),
-                 superherm=(), traceless4=()):
+                 superherm=(), traceless4=(), colsum0=()):
+        # colsum0: sum_x K[x, j] = 0
+        self.colsum0 = set(colsum0)
         # superherm: conj(R[.., a,b,c,d]) = R[.., b,a,d,c]
         # traceless4: sum_x R[.., x,x,c,d] = 0
         self.superherm = set(superherm)
@@ -297,7 +299,7 @@ class Facts:
     def describe(self):
         out = []
         for k in ("real", "hermitian", "symmetric", "diagonal", "unit_modulus", "zero_diag",
-                  "superherm", "traceless4"):
+                  "superherm", "traceless4", "colsum0"):
             v = {x for x in getattr(self, k) if not x.startswith("#")}
             if v:
                 out.append("%s(%s)" % (k, ",".join(sorted(v))))
@@ -308,7 +310,7 @@ class Facts:
     def without(self, kind, item):
         f = Facts(self.real, self.hermitian, self.symmetric, self.inverse,
                   self.diagonal, self.unit_modulus, self.zero_diag, self.idempotent,
-                  self.exclusive, self.superherm, self.traceless4)
+                  self.exclusive, self.superherm, self.traceless4, self.colsum0)
         if kind == "inverse":
             f.inverse = [p for p in f.inverse if p != tuple(item)]
         else:
@@ -333,6 +335,11 @@ def _apply_factor_facts(t, facts):
         if f.conj and f.name in facts.superherm and len(f.idx) >= 4:
             i = f.idx
             f = F(f.name, i[:-4] + (i[-3], i[-4], i[-1], i[-2]), False, f.pow)
+        if f.name in facts.colsum0 and len(f.idx) == 2 and f.idx[0] in t.sums and not f.conj:
+            x = f.idx[0]
+            occ = sum(g.idx.count(x) for g in t.factors) + sum(d.count(x) for d in t.deltas)
+            if occ == 1:
+                return None
         if f.name in facts.traceless4 and len(f.idx) >= 4 and f.idx[-4] == f.idx[-3] \
                 and f.idx[-4] in t.sums:
             x = f.idx[-4]
